@@ -9,6 +9,9 @@ REPO=$2
 "$V/bin/goatcheck" -repo "$REPO" -verif "$V" -prop "$prop" -tier thorough
 rc=$?
 [ $rc -ne 0 ] && exit $rc
+# the same rules on the program as a 32-bit target sees it (covers what any build covers; evidence is not rewritten)
+out386=$("$V/bin/goatcheck" -repo "$REPO" -verif "$V" -prop "$prop" -tier thorough -goarch 386 -no-evidence 2>&1)
+if echo "$out386" | grep -q '^VIOLATION'; then echo "$out386" | grep -E 'finding:|^VIOLATION'; echo "(under GOARCH=386)"; exit 1; fi
 if [ -x "$V/selftest/run.sh" ]; then
   "$V/selftest/run.sh" "$prop" "$REPO" || { echo "self-test of the checker failed (a seeded variant was not detected); the check is not trustworthy" >&2; exit 2; }
 fi
